@@ -1473,12 +1473,14 @@ def gen_callers_dispatch(rng, quick):
                 shapes = [("rle",)]
             else:
                 shapes = [("rle",), ("bp",), ("rle", "bp", "rle")]
-            for shape in shapes:
+            for shape, top in [(sh, t) for sh in shapes for t in ((None,) if not (ownw and sh in (("wbp",), ("bp",))) else
+                                                                   {8: (127, 128, 255), 16: (32767, 32768, 65535), 32: (None,)}[w])]:
                 own = ownw and shape == ("wbp",)
                 for optional in (False, True):
                     for n in ((9, 40) if quick else (1, 8, 9, 17, 40, 200)):
-                        # largest index: a dictionary has at most 2^31 - 1 entries; fastparquet's own codes are signed
-                        m = (1 << (w - 1)) - 1 if ownw else min((1 << w) - 1, (1 << 31) - 1)
+                        # largest index: a dictionary has at most 2^31 - 1 entries; fastparquet's own codes are signed.  `top`: whole-byte
+                        # indices in the one-run layout with a dictionary on either side of the signed range of the width (core._index_dtype)
+                        m = top if top is not None else ((1 << (w - 1)) - 1 if ownw else min((1 << w) - 1, (1 << 31) - 1))
                         levels = [1] * n if not optional else [0 if (i % 4 == 1) else 1 for i in range(n)]
                         nval = sum(levels)
                         ext = [m, 0, (1 << max(min(w - 2, 29), 0)) if w else 0]
@@ -1506,7 +1508,7 @@ def gen_callers_dispatch(rng, quick):
                             continue
                         enc = ["bp_enc", w, want] if own else ["hyb_enc", w, runs]
                         base = {"w": w, "n": n, "optional": optional, "stream": "main", "enc": enc, "trail": False,
-                                "selfmade": selfmade, "wform": own}
+                                "selfmade": selfmade, "wform": own, "dic_len": m + 1}
                         # core._is_one_bitpacked_run: the block is ONE bit-packed run holding at least the page's values
                         one_run = len(runs) == 1 and runs[0][0] == "bp"
                         meta = {"want": want, "levels": levels, "shape": "+".join(shape), "one_run": one_run}
